@@ -511,6 +511,9 @@ func (b *teletextPageBuffer) dump(lastTime time.Time) (ps []*teletextPage) {
 func (b *teletextPageBuffer) process(d *astits.PESData, t time.Time) (ps []*teletextPage) {
 	// Data identifier
 	var offset int
+	if len(d.Data) == 0 {
+		return
+	}
 	dataIdentifier := uint8(d.Data[offset])
 	offset += 1
 
@@ -526,6 +529,9 @@ func (b *teletextPageBuffer) process(d *astits.PESData, t time.Time) (ps []*tele
 		offset += 1
 
 		// Length
+		if offset >= len(d.Data) {
+			break
+		}
 		length := uint8(d.Data[offset])
 		offset += 1
 
@@ -552,6 +558,11 @@ func (b *teletextPageBuffer) process(d *astits.PESData, t time.Time) (ps []*tele
 func (b *teletextPageBuffer) parseDataUnit(i []byte, id uint8, t time.Time) {
 	// Check id
 	if id != teletextPESDataUnitIDEBUSubtitleData {
+		return
+	}
+
+	// An EBU teletext data unit holds 2 bytes followed by a 42 bytes teletext packet
+	if len(i) < 44 {
 		return
 	}
 
